@@ -6,6 +6,7 @@ import z3
 
 from . import common, e3
 from .common import log
+from . import probes
 from .mir import engine as mir_engine, exec as mx, cmpcfg
 from .mir.cmpcfg import FieldAtoms, TRAITS, ATTRS, BODY_FN
 
@@ -184,7 +185,7 @@ def check_verify(eng, obl, out):
     if ok:
         obl.discharged += 1
     else:
-        out.violation("verify-wiring", "-", "HelperAttributesForCompareOp::verify does not verify all five helper attributes against the given target")
+        probes.structural(out, "verify-wiring", "HelperAttributesForCompareOp::verify does not verify all five helper attributes against the given target", 'C05.placement')
     # the three call sites pass the right target
     for site, want_t in (("FieldEntry::new", "Field"), ("VariantEntry::new", "Variant"), ("build_by_item_struct_core", "Type"), ("build_by_item_enum_core", "Type")):
         ex3 = eng.executor(opaque_local={"HelperAttributes::from_attrs", "FieldEntry::from_fields", "VariantEntry::from_variants", "DeriveEntry::from_root",
@@ -200,7 +201,7 @@ def check_verify(eng, obl, out):
         if evs and all(("AttributeTarget::%s" % want_t) in e[1][1] for e in evs):
             obl.discharged += 1
         else:
-            out.violation("target-wiring|" + site, "-", "%s does not parse helper attributes with AttributeTarget::%s (events %s)" % (site, want_t, evs[:2]))
+            probes.structural(out, "target-wiring|" + site, "%s does not parse helper attributes with AttributeTarget::%s (events %s)" % (site, want_t, evs[:2]), 'C05.placement')
     # HelperAttributes::from_attrs verifies before returning Ok
     ex4 = eng.executor(opaque_local={"HelperAttributes::verify", "HelperAttributesForCompareOp::from_attrs", "HelperAttributeForDebug::from_attrs",
                                      "HelperAttributeForDefault::from_attrs", "DeriveEntry::from_args_list", "parse_derive_ex_attrs"}, trace={"HelperAttributes::verify"})
@@ -212,7 +213,7 @@ def check_verify(eng, obl, out):
     if oks and all(any(e[0] == "HelperAttributes::verify" and e[1][1] == "sym:target" for e in r.events) for r in oks):
         obl.discharged += 1
     else:
-        out.violation("from_attrs-verify", "-", "HelperAttributes::from_attrs can return Ok without verifying the placement of the attributes")
+        probes.structural(out, "from_attrs-verify", "HelperAttributes::from_attrs can return Ok without verifying the placement of the attributes", 'C05.placement')
 
 
 def check_isolation(eng, obl, out):
@@ -225,7 +226,7 @@ def check_isolation(eng, obl, out):
     if res and all(r.kind == "return" for r in res):
         obl.discharged += 1
     else:
-        out.violation("apply_dump", "-", "DeriveEntry::apply_dump can panic / diverge: %s" % [(r.kind, r.value) for r in res if r.kind != "return"][:2])
+        probes.structural(out, "apply_dump", "DeriveEntry::apply_dump can panic / diverge: %s" % [(r.kind, r.value) for r in res if r.kind != "return"][:2], 'C05.isolation')
     builders = {"build_binary_op", "build_assign_op", "build_unary_op", "build_compare_op_for_struct", "build_compare_op_for_enum", "build_copy_for_struct",
                 "build_clone_for_struct", "build_debug_for_struct", "build_default_for_struct", "build_deref_for_struct", "build_copy_for_enum",
                 "build_clone_for_enum", "build_debug_for_enum", "build_default_for_enum"}
@@ -253,7 +254,7 @@ def check_isolation(eng, obl, out):
         if good and n_loops >= 2:
             obl.discharged += 1
         else:
-            out.violation("isolation|" + core, "-", "%s does not route every builder result through apply_dump (per-entry error isolation)" % core)
+            probes.structural(out, "isolation|" + core, "%s does not route every builder result through apply_dump (per-entry error isolation)" % core, 'C05.isolation')
 
 
 def validate_encoder(eng, n, rnd, out):
